@@ -23,6 +23,7 @@ class TlcResult:
         self.errors = []           # other "Error:" lines
         self.trace = []            # raw text of the counterexample
         self.emitted = 0
+        self.traces = 0
         self.wall = 0.0
         self.finished = False
         self.timed_out = False
@@ -115,6 +116,11 @@ def run(module, cfg, *, workers=16, on_emit=None, timeout=3600, simulate=None, d
             m = re.match(r"(\d+) states generated, (\d+) distinct states found", line)
             if m:
                 res.generated, res.distinct = int(m.group(1)), int(m.group(2))
+            m = re.match(r"Progress: (\d+) states checked, (\d+) traces generated", line)
+            if m:
+                res.generated, res.traces = int(m.group(1)), int(m.group(2))
+            if line.startswith("The number of states generated:"):
+                res.finished = True
             m = re.match(r"The depth of the complete state graph search is (\d+)", line)
             if m:
                 res.depth = int(m.group(1))
